@@ -214,6 +214,18 @@ def run_model_guarded(exe, jobs, timeout=120, mem=3 << 30):
     return [{"ok": False, "kind": "crash", "msg": why}]
 
 
+def first_diff(a, b, path=""):
+    """Path and the two values at the first differing position of two codec values."""
+    if isinstance(a, dict) and isinstance(b, dict) and list(a.keys()) == list(b.keys()) and len(a) == 1:
+        k = next(iter(a))
+        x, y = a[k], b[k]
+        if isinstance(x, list) and isinstance(y, list) and len(x) == len(y):
+            for i, (p, q) in enumerate(zip(x, y)):
+                if p != q:
+                    return first_diff(p, q, "%s.%s[%d]" % (path, k, i))
+    return path, a, b
+
+
 def classify(ir_res, spv_res, keys):
     """-> (class, detail).  classes: agree | differ | ir_out (IR side outside its fragment / failed) |
     spv_ub | spv_impl | spv_nan | spv_unmodelled | spv_fail | fuel"""
@@ -241,7 +253,8 @@ def classify(ir_res, spv_res, keys):
         a = ir_res["globals"][h]
         b = spv_res["buffers"].get(key)
         if a != b:
-            return "differ", "buffer %s: WGSL/IR meaning %s, SPIR-V %s" % (key, json.dumps(a), json.dumps(b))
+            path, x, y = first_diff(a, b)
+            return "differ", "buffer %s%s: WGSL/IR meaning %s, SPIR-V %s" % (key, path, json.dumps(x), json.dumps(y))
     return "agree", ""
 
 
